@@ -147,6 +147,9 @@ def run_case(case):
         h = vloop.run_harness(case, d)
         evaluate(h, res, d)
         res.sig = poolcase.event_string(h, 80)
+        res.obs("events", h.events[:60])
+        res.obs("healthy_client_responses", h.responses_of(0)[:12])
+        res.obs("final_states", h.snapshots[-1]["states"] if h.snapshots else None)
         ev = [e for e in h.events if e["kind"] == "client"]
         res.nontrivial = any(e["conn"] != 0 for e in ev) and any(e["kind"] == "spawn" for e in h.events)
     finally:
